@@ -219,7 +219,12 @@ class Unit:
             for _ in range(cc.nth + 1):
                 pos = body.find(cc.header, pos + 1)
                 if pos < 0:
-                    raise LostAnchor('%s: closure %r #%d not found' % (key, cc.header, cc.nth))
+                    break
+            if pos < 0:
+                # relaxed anchor: the closure is gone from the current text; its contract is skipped (the obligations that
+                # relied on it then fail or the file is rejected, never a silent pass: they are named in the baseline)
+                self.relaxed.append('%s: closure %r #%d not found, closure contract skipped' % (key, cc.header, cc.nth))
+                continue
             bstart = pos + len(cc.header)
             toks = rsparse.tokenize(body[bstart:])
             match = rsparse.match_brackets_lenient(toks)
